@@ -222,7 +222,9 @@ OnRet(o, ln) ==
 
 ObsStep(o, ln) ==
   LET o1 == IF ln.k = "ret" THEN o ELSE Flag(o, ExpectOK(o, ln), ExpectName(o, ln))
-  IN CASE ln.k = "call" -> OnCall(o1, ln)
+      hasM == ln.k \in {"tr", "lim", "ctr", "as", "dec"}
+  IN IF hasM /\ ~(ln.m >= 0 /\ ln.m < ONM(o)) THEN Flag(o1, FALSE, "Nesting") ELSE
+     CASE ln.k = "call" -> OnCall(o1, ln)
        [] ln.k = "ev"   -> OnEv([o1 EXCEPT !.expect = "", !.expM = -1], ln)
        [] ln.k = "tr"   -> OnTr(o1, ln)
        [] ln.k = "lim"  -> OnLim(o1, ln)
@@ -249,7 +251,7 @@ C02_PadBudget(o) ==
   (o.atRet /\ o.nEv = 1) =>
     \A i \in 1..Len(o.acts) :
       LET a == o.acts[i]  M == o.C.M[a.m + 1] IN
-      a.kind = "SendPadding" =>
+      (a.kind = "SendPadding" /\ a.m >= 0 /\ a.m < ONM(o)) =>
         \/ ULt(o.repPad[a.m + 1], M.allowedPad)
         \/ /\ PadBelow(o.repPad[a.m + 1], o.repPad[a.m + 1] + o.repNorm, M.padFrac)
            /\ PadBelow(o.repPadAll, o.repPadAll + o.repNorm, o.C.fwPad)
@@ -265,7 +267,7 @@ C03_BlockBudget(o) ==
   (o.atRet /\ o.nEv = 1) =>
     \A i \in 1..Len(o.acts) :
       LET a == o.acts[i]  M == o.C.M[a.m + 1] IN
-      a.kind = "BlockOutgoing" =>
+      (a.kind = "BlockOutgoing" /\ a.m >= 0 /\ a.m < ONM(o)) =>
         \/ (a.replace /\ o.blkActive)
         \/ ULt(Blocked(o), M.allowedBlock)
         \/ (ShareBelow(o, M.blockFrac) /\ ShareBelow(o, o.C.fwBlk))
